@@ -45,7 +45,9 @@ def strace_capture(ctx, cases, tag, n):
         finally:
             os.unlink(shm.name)
         txt = open(st).read()
-        m = re.search(r"seccomp\((?:0x1|1), (0x[0-9a-f]+|\d+), \{len=(\d+), filter=\[(.*?)\]\}\)\s+=\s+(-?\d+)", txt, re.S)
+        # the policy's own load is the LAST filter installation of the child (a helper thread with a private filter, job.divergent, loads before it)
+        ms = list(re.finditer(r"seccomp\((?:0x1|1), (0x[0-9a-f]+|\d+), \{len=(\d+), filter=\[(.*?)\]\}\)\s+=\s+(-?\d+)", txt, re.S))
+        m = ms[-1] if ms else None
         if not m:
             ctx.skip("strace output has no decodable seccomp call")
             continue
